@@ -3,6 +3,7 @@ from __future__ import annotations
 
 import inspect
 import random
+import re
 
 from pyvc.runner import bounded, fd
 from bounded.C01_api import Fail
@@ -101,6 +102,15 @@ def gen_def(rnd, depth, top=True, allow_name=True):
     return text, ("record", name or "DATA", [(S.member_key(s) if s[0] != "item" else s[1], s) for _, s in members])
 
 
+def _duplicate_keys(shape):
+    if isinstance(shape, tuple) and shape and shape[0] == "record":
+        keys = [k for k, _ in shape[1]]
+        return len(keys) != len(set(keys)) or any(_duplicate_keys(v) for _, v in shape[1])
+    if isinstance(shape, tuple) and shape and shape[0] == "array":
+        return _duplicate_keys(shape[-1])
+    return False
+
+
 @bounded("C19", "generated-definitions")
 def bnd_generated(tier, seed):
     rnd = random.Random(seed + 19)
@@ -129,6 +139,29 @@ def bnd_generated(tier, seed):
         if got != want:
             fails.add("shape-as-documented" + (".named-list-first-member-list" if pattern else ""), {"text": text[:160], "pattern": pattern, "got": repr(got)[:200], "want": repr(want)[:200]},
                       "shape / key order / item classes differ from the documented rules (several members: record; one member: open array; key naming)")
+        # line-break twins: texts that differ from this one only in where a line break sits relative to a comment (same
+        # text after whitespace normalisation, different meaning: the line break ends the comment), read in the same process
+        if "#" in text:
+            twins = []
+            for m_ in re.finditer(r"#[^\n]*\n", text):
+                twins.append(text[:m_.end() - 1] + " " + text[m_.end():])            # comment swallows the rest of the next line
+                twins.append(text[:m_.start() + 1] + "\n" + text[m_.start() + 1:])   # comment text becomes definition text
+            for tw in twins[:4]:
+                n_eval += 1
+                # documented: a comment runs from '#' to the line break and is ignored - so the twin must be read exactly
+                # like the same text with its comments blanked out (accepted with the same shape, or rejected alike)
+                blank = re.sub(r"#[^\n]*", " ", tw)
+                outcomes = []
+                for t_ in (tw, blank):
+                    try:
+                        outcomes.append(lib_shape(VF.generate(t_)))
+                    except Exception as exc:
+                        outcomes.append(("rejected", type(exc).__name__))
+                if (outcomes[0][0] == "rejected") != (outcomes[1][0] == "rejected") or (outcomes[0][0] != "rejected" and outcomes[0] != outcomes[1]):
+                    fails.add("line-break-twin.comments-are-ignored", {"first_read": text[:160], "then": tw[:160], "read_as": repr(outcomes[0])[:160],
+                                                                       "same_text_without_comments_read_as": repr(outcomes[1])[:160]},
+                              "a definition read after a well-formed text that differs from it only in a line break next to a comment is not read like "
+                              "the same text with the comments removed (a bracket swallowed by a comment was accepted, or the other text's shape was returned)")
         # mutations of this definition
         toks_close = [i for i, ch in enumerate(text) if ch == ">" and "#" not in text[text.rfind("\n", 0, i) + 1:i]]
         for p in rnd.sample(toks_close, min(2, len(toks_close))):
